@@ -22,8 +22,11 @@ def h07(c, U=3, R=1, other_market=False, suspensions=False, real_time_error=Fals
     """real FlumineSimulation._process_market_books / process_order_package / _check_pending_packages / calc_simulated_delay /
     elapsed_seconds / SimulatedExecution under flumine's own SimulatedDateTime with symbolic publish times, latencies and bet delays"""
     lat = {k: c.mills("%s_latency" % k, 0, 5000) for k in ("place", "cancel", "update", "replace")}
-    with cm.config_set(simulated=True, place_latency=lat["place"], cancel_latency=lat["cancel"], update_latency=lat["update"], replace_latency=lat["replace"]):
-        reqs = [c.choose("request%d" % r, ["place", "cancel", "update", "replace"]) for r in range(R)]
+    reqs = [c.choose("request%d" % r, ["place", "cancel", "update", "replace"]) for r in range(R)]
+    # (asynchronous placement only changes how the live exchange answers: the simulated timing is the same)
+    async_place = c.choose("async_place_orders", [False, True]) if "place" in reqs else False
+    with cm.config_set(simulated=True, place_latency=lat["place"], cancel_latency=lat["cancel"], update_latency=lat["update"], replace_latency=lat["replace"],
+                       async_place_orders=async_place):
         u_req = c.choose("request_at_update", list(range(0, U - 1)))
         c.tag("requests", "+".join(reqs))
         log = {"exec": [], "now_seen": [], "created": {}}
